@@ -77,8 +77,8 @@ inline const OperandPair& operandPair(int64_t i) {
         { "x\nA\tq", "x\nB\tq", 2 } };      // the shared prefix holds a character that is printed as two: the position is the one in the operands, not in their printed forms      // a control character against the four characters of its own escape: the printed forms are the same text
     size_t k = (size_t)(i < 0 ? 0 : i) % N_OPERAND_PAIRS;
     if (k >= N_FIXED_OPERAND_PAIRS) {
-        static char e[130][132], a[130][132]; static OperandPair dyn[130]; static bool dynInit = false;
-        if (!dynInit) { dynInit = true; for (int n = 0; n < 130; n++) { for (int c = 0; c < n; c++) e[n][c] = a[n][c] = (char)('a' + c % 26); e[n][n] = 'X'; a[n][n] = 'Y'; e[n][n + 1] = a[n][n + 1] = 0; dyn[n].expected = e[n]; dyn[n].actual = a[n]; dyn[n].at = n; } }
+        static char e[130][134], a[130][134]; static OperandPair dyn[130]; static bool dynInit = false;
+        if (!dynInit) { dynInit = true; for (int n = 0; n < 130; n++) { for (int c = 0; c < n; c++) e[n][c] = a[n][c] = (char)('a' + c % 26); e[n][n] = 'X'; a[n][n] = 'Y'; e[n][n + 1] = 0; if (n % 2 == 0) { a[n][n + 1] = 'Z'; a[n][n + 2] = 0; } else a[n][n + 1] = 0;      /* (the operands of half the pairs differ in length too, so that the message takes every length, odd and even) */ dyn[n].expected = e[n]; dyn[n].actual = a[n]; dyn[n].at = n; } }
         return dyn[k - N_FIXED_OPERAND_PAIRS];
     }
     return t[k];
@@ -102,6 +102,7 @@ struct Obs {           // everything observed in one run
     Str childConsole;              // what forked children flushed to the console before they ended (real separate-process mode)
     Vec<int64_t> procLog;          // C11: (test, what, value) triples: 1 fork, 2 waitpid call, 3 kill(sig), 4 script exhausted (hang), 5 fork failed
     Str finalReport; int pluginCount, pluginCountExpected; int removedStillFound;
+    Vec<Str> printedChunks;        // every text the framework handed to the JUnit output's print(const char*), call by call (what <system-out> is made of)
     Str wrapperProblems;           // what went wrong around the static RunAllTests entry point (epilogue of some runs)
     Obs() : ret(0), parsedOk(true), depthAtStart(0), depthAtEnd(0), maxDepth(0), ctxOkAtEnd(true), finalProbe(0), slotLeftovers(false), pluginCount(0), pluginCountExpected(0), removedStillFound(0), writesAfterClose(0), badHandle(0) {}
 };
